@@ -343,6 +343,7 @@ func checkC16(r *core.Run) {
 	r.Floor("C16.once", 6)
 	c16ResetSession(r)
 	r.Floor("C16.reset", 1)
+	c16Delegates(r)
 	r.Floor("C16.notraffic", 25)
 	r.Floor("C16.forward", 20)
 	r.Floor("C16.noextra", 1)
@@ -737,5 +738,71 @@ func c16ResetSession(r *core.Run) {
 	}
 	if n == 0 {
 		r.Undecided("C16.reset", core.ShortKey(f.Obj)+" delegates to the driver's ResetSession", w.Pos(f.Decl.Pos()), "no call of driver.SessionResetter.ResetSession found")
+	}
+}
+
+// c16Delegates: every exit of a statement entry of the proxy connections has passed the statement on — to the
+// wrapped connection's method of the same kind, to the implicit-transaction wrapper, or to an executor. An exit
+// taken before that (an "optimisation" answering driver.ErrSkip, a shortcut for some argument shapes) makes
+// database/sql choose another path than it would with the bare driver.
+func c16Delegates(r *core.Run) {
+	w := r.W
+	n := 0
+	for _, tn := range []string{"Conn", "ATConn", "XAConn"} {
+		t := w.NamedType("pkg/datasource/sql", tn)
+		for _, mn := range []string{"ExecContext", "QueryContext", "PrepareContext", "Exec", "Query", "Prepare"} {
+			f := methodInfo(w, t, mn)
+			if f == nil || core.RecvNamed(f.Obj) != t {
+				continue
+			}
+			r.Fn(f)
+			sp := &flow.Spec{W: w, Depth: 0, Classify: func(pkg *packages.Package, call *ast.CallExpr, callee *types.Func) []flow.Tag {
+				if callee == nil {
+					return nil
+				}
+				nm := callee.Name()
+				switch {
+				case strings.HasPrefix(nm, "Exec") || strings.HasPrefix(nm, "Query") || strings.HasPrefix(nm, "Prepare"):
+					return []flow.Tag{"delegated"}
+				case nm == "createNewTxOnExecIfNeed" || nm == "BuildExecutor":
+					return []flow.Tag{"delegated"}
+				}
+				return nil
+			}, CondTags: func(pkg *packages.Package, cond ast.Expr, branch bool) []flow.Tag {
+				// `x, ok := target.(driver.Iface)` answered false: the wrapped connection lacks that optional
+				// interface, and saying so (driver.ErrSkip) is what the bare driver's missing method means too
+				neg := false
+				e := ast.Unparen(cond)
+				if u, ok := e.(*ast.UnaryExpr); ok && u.Op == token.NOT {
+					neg, e = true, ast.Unparen(u.X)
+				}
+				id, ok := e.(*ast.Ident)
+				if !ok {
+					return nil
+				}
+				v, ok := pkg.TypesInfo.Uses[id].(*types.Var)
+				if !ok {
+					return nil
+				}
+				for _, d := range localDefs(f, v) {
+					if ta, ok := ast.Unparen(d.rhs).(*ast.TypeAssertExpr); ok && d.idx == 1 && ta.Type != nil {
+						if t := pkg.TypesInfo.TypeOf(ta.Type); t != nil && strings.HasPrefix(t.String(), "database/sql/driver.") && neg == branch {
+							return []flow.Tag{"unsupported"}
+						}
+					}
+				}
+				return nil
+			}}
+			res := sp.Analyze(f)
+			for _, ex := range res.Exits {
+				n++
+				r.Sites++
+				r.Check(ex.St.Has("delegated") || ex.St.Has("unsupported"), "C16.forward", core.ShortKey(f.Obj)+" "+exitRole(ex, nil)+" is reached only after the statement was passed on", w.Pos(ex.Pos), "delegated on every path",
+					"this exit is taken without the statement having been passed to the wrapped connection / the transaction wrapper / an executor: for the statements that take it database/sql falls back to another path (prepare + execute, or an error) that the bare driver would not have taken")
+			}
+		}
+	}
+	if n < 10 {
+		r.Bad("C16.forward", "INSTANCE-FLOOR exits of statement entries", "", "fewer statement-entry exits than confirmed by hand")
 	}
 }
